@@ -92,7 +92,8 @@ func EntryKeyParse(key []byte) (string, TermType, []byte, string) {
 	ttype := TermType(tmp[2][0])
 	suffix := tmp[3]
 	if ttype == TermNumber {
-		return field, ttype, suffix[0:8], string(suffix[8:])
+		//8 bytes of number, the separator, then the document id
+		return field, ttype, suffix[0:8], string(suffix[9:])
 	}
 	stmp := bytes.Split(suffix, []byte{0})
 	return field, ttype, stmp[0], string(stmp[1])
